@@ -140,8 +140,7 @@ def register(R):
   # unrolled: bounded in the NUMBER of workers only, symbolic in everything else)
   R.add(Contract(
       f'{CW}::WorkerPool.release_all', P, types=dict(self='WorkerPool', workers='tuple[]'), setup=_setup_pool,
-      modifies=['w0._worker_pool', 'lock:w0._lock', 'w1._worker_pool', 'lock:w1._lock',
-                'self._workers'],
+      modifies=['w0._worker_pool', 'lock:w0._lock', 'w1._worker_pool', 'lock:w1._lock'],
       requires=['w0._lock.locked() == (w0._worker_pool is not None)', 'w1._lock.locked() == (w1._worker_pool is not None)'],
       ensures=[
           # a pool can only release workers it owns or that are free
@@ -225,6 +224,22 @@ def register(R):
       loops={0: dict(invariant=["ncalls('Worker.release') == 0"], retype={'worker': 'Worker?'})},
       bounded='bounded_release',
       note='exactly one release per successful acquisition, on the normal and on the failing exit (D9 was the missing finally)'))
+
+  # ---- WorkerPool.call_and_wait: whatever was acquired for the broadcast is released on every exit ------------------
+  R.add(Contract(f'{CW}::WorkerPool._acquire_all', 'trusted', types=dict(self='WorkerPool', workers='none', num_workers='int', blocking='bool'),
+                 ret='obj', modifies=['w0._worker_pool', 'lock:w0._lock', 'w1._worker_pool', 'lock:w1._lock'],
+                 ensures=['w0._lock.locked() == (w0._worker_pool is not None)', 'w1._lock.locked() == (w1._worker_pool is not None)'],
+                 note='ASSUMED here (its ownership behaviour is exercised by bounded_ownership): keeps the worker invariant'))
+  R.add(Contract(f'{CU}::CourierClient.call', 'trusted', types=dict(self='Worker', args='tuple[]', courier_method='obj'), ret='obj?',
+                 may_raise=['UserError']))
+  R.add(Contract(f'{CW}::get_results', 'trusted', types=dict(states='obj', timeout='none'), ret='obj', may_raise=['UserError', 'TimeoutError']))
+  R.add(Contract(
+      f'{CW}::WorkerPool.call_and_wait', P, types=dict(self='WorkerPool', args='tuple[]', courier_method="const:'maybe_make'"), ret='obj',
+      setup=_setup_run, modifies=['w0._worker_pool', 'lock:w0._lock', 'w1._worker_pool', 'lock:w1._lock'],
+      may_raise=['UserError', 'TimeoutError'],
+      # on the normal AND on every failing exit the pool has released its workers, exactly once
+      always=["ncalls('WorkerPool.release_all') == 1", 'w0._worker_pool is not self and w1._worker_pool is not self'],
+      bounded='bounded_release'))
 
   R.bounded_checks[P] = [
       ('bounded_registry', 'register/refresh/unregister histories vs reference registry'),
